@@ -119,6 +119,9 @@ type (
 		// CodeCloser is non-nil when the code should be closed after this module.
 		CodeCloser api.Closer
 
+		// memoryReleased is true once this instance has released its use of MemoryInstance (see ensureResourcesClosed).
+		memoryReleased bool
+
 		// s is the Store on which this module is instantiated.
 		s *Store
 		// prev and next hold the nodes in the linked list of ModuleInstance held by Store.
@@ -524,6 +527,7 @@ func (m *ModuleInstance) resolveImports(ctx context.Context, module *Module) (er
 					return
 				}
 				m.MemoryInstance = importedMemory
+				importedMemory.importers.Add(1)
 				m.Engine.ResolveImportedMemory(importedModule.Engine)
 			case ExternTypeGlobal:
 				expected := i.DescGlobal
